@@ -166,7 +166,7 @@ def unflatten_dict(xs, sep=None):
   for path, value in xs.items():
     if sep is not None:
       path = path.split(sep)
-    if value is empty_node:
+    if isinstance(value, _EmptyNode):
       value = {}
     cursor = result
     for key in path[:-1]:
